@@ -107,11 +107,22 @@ func TestC07Stream(t *testing.T) {
 			starts = append(starts, len(stream))
 			stream = append(stream, f...)
 		}
+		// in a third of the scripts the stream ends with a header whose length field is below the header size
+		// (0..7) and some bytes behind it: nothing after it can be framed, but everything before it was sent
+		// in full and the process lives on
+		shortTail := -1
+		if gen.Pick(rt, "short_length_tail", 3) == 0 {
+			shortTail = rapid.IntRange(0, 7).Draw(rt, "short_length")
+			starts = append(starts, len(stream))
+			stream = append(stream, 4, byte(rapid.IntRange(0, 30).Draw(rt, "short_type")), 0, byte(shortTail), 0x7f, 0, 0, 1)
+			stream = append(stream, rapid.SliceOfN(rapid.Byte(), 0, 40).Draw(rt, "short_trailer")...)
+			c.Label("stream_ends_with_length_below_header_size")
+		}
 		cutStream(rt, stream, starts, &sc)
 		sc.consumer = gen.Pick(rt, "consumer", 3)
 		sc.procs = []int{1, 2, 4, 16}[gen.Pick(rt, "gomaxprocs", 4)]
 		c.Eval()
-		desc := fmt.Sprintf("%d conformant and %d rejected frames (%d rejected before the last conformant one), %d bytes in %d reads, consumer=%d GOMAXPROCS=%d", len(wantKeys), rej, rejBeforeLast, len(stream), len(sc.chunks), sc.consumer, sc.procs)
+		desc := fmt.Sprintf("%d conformant and %d rejected frames (%d rejected before the last conformant one), %d bytes in %d reads, consumer=%d GOMAXPROCS=%d, final header with length %d", len(wantKeys), rej, rejBeforeLast, len(stream), len(sc.chunks), sc.consumer, sc.procs, shortTail)
 		rep := map[string]any{"script": desc, "frame_sizes": frameSizes(frames, 60)}
 		got, errs, timedOut, _ := runInbound(sc, ofParser{}, func(m util.Message) string { return obs.Deep(m) }, len(wantKeys))
 		want := multiset(wantKeys)
@@ -128,7 +139,7 @@ func TestC07Stream(t *testing.T) {
 			// whatever Parse returned next to its error - at most one such value per rejected frame
 			extras++
 		}
-		if extras > rej {
+		if extras > rej+1 {
 			c.Report(rt, "C07|stream|more-messages-than-frames", fmt.Sprintf("%s: %d messages were delivered beyond the conformant frames, the script has only %d rejected frames", desc, extras, rej), rep)
 			return
 		}
